@@ -15,7 +15,9 @@ CONSTANTS
   MaxChanges = 2
   MaxUpdates = 1
   MaxCalls = 3
+  NPages = 2
   ModernUnsub = FALSE
+  ForeignUnsub = FALSE
   Stepwise = TRUE
   Gates = FALSE
   GateNames = {"inv", "usr", "put"}
